@@ -534,3 +534,37 @@ func LemmaObligationsFor(prop string, rs []*FuncResult) []*FuncResult {
 	}
 	return out
 }
+
+
+// VacuousCanaries returns the canaries of one function that count as vacuity failures. Entry and loop canaries must be
+// reachable. Return canaries: the contract may declare returns unreachable (dead-return N, numbered in source order);
+// as many returns may be unreachable as are declared, whichever they are (an inserted or removed return shifts the
+// ordinals without making anything vacuous); every unreachable return beyond that number is reported, undeclared ones first.
+func VacuousCanaries(r *FuncResult) []*Obl {
+	var bad, deadDeclared, deadOther []*Obl
+	declared := 0
+	for _, o := range r.Obls {
+		if !o.Canary {
+			continue
+		}
+		if o.ExpectDead {
+			declared++
+		}
+		if o.Result != "unsat" {
+			continue
+		}
+		switch {
+		case !strings.Contains(o.Name, ":canary:return"):
+			bad = append(bad, o)
+		case o.ExpectDead:
+			deadDeclared = append(deadDeclared, o)
+		default:
+			deadOther = append(deadOther, o)
+		}
+	}
+	extra := len(deadDeclared) + len(deadOther) - declared
+	for i := 0; i < extra && i < len(deadOther); i++ {
+		bad = append(bad, deadOther[i])
+	}
+	return bad
+}
